@@ -130,3 +130,5 @@ func shortSite(site string) string {
 	}
 	return parts[0]
 }
+
+type instT = inst.Instance
